@@ -531,7 +531,7 @@ theorem LruAll_step (cfg : Cfg) (s : St) (op : Op) (he : Excl s) (h : LruAll cfg
     · next c hst =>
       split; exact h
       next k hk =>
-      have hholds : (s.wst w).holds c = true := by rw [hst]; exact (holds_using c c).mpr rfl
+      have hholds : (s.wst w).holds c = true := by rw [hst]; exact (holds_inUse c c).mpr rfl
       have h1 := LruAll_tryPut cfg { s with wst := upd s.wst w .finished } c k
         (Free_after_release s w c .finished (fun d => holds_finished d) hholds he) hk
         (Excl_release s w .finished (fun d => holds_finished d) he)
